@@ -43,6 +43,7 @@ RNext ==
   \/ Begin /\ L("B")
   \/ AllocPage /\ L("A" \o ToString(DataTake(al).p))
   \/ Flush /\ L("L")
+  \/ Checkpoint /\ L("P")
   \/ InBody /\ Rollback /\ L("K:" \o Logical(cm))
   \/ \E p \in 2..(NP - 1) :
         \/ WritePage(p) /\ L("W" \o ToString(p) \o "=" \o ToString(ver + 1))
